@@ -263,7 +263,7 @@ func runC12(r *Run) {
 				calls = append(calls, c)
 			})}})
 		if w.Panic != "" || w.Err != nil {
-			r.Infra("walk %s failed: %s %v", in.Name, w.Panic, w.Err)
+			walkFailed(r, in, "verifier", w)
 			continue
 		}
 		// expected wiring from plonky2's fri_verifier_query_round
